@@ -646,3 +646,15 @@ Fixpoint lost_b (h : list event) {struct h} : bool :=
       | _ => false
       end) || lost_b rest)%bool
   end.
+
+(* ---- quiescence.  The assignment of a generation is an environment label (LJoinSync): that
+   the assignments distributed in generation g cover the partitions of the existing subscribed
+   topics is a HYPOTHESIS on the labels, evaluated on what the real group leader computed. *)
+Definition assigned_in_gen (h : list event) (g : N) (t : tp) : bool :=
+  existsb (fun e => match e with
+                    | EvAssign _ _ g' asg => (N.eqb g g' && existsb (tp_eqb t) asg)%bool
+                    | _ => false end) h.
+Definition assignment_covers_existing_b (existing : list tp) (g : N) (h : list event) : bool :=
+  forallb (assigned_in_gen h g) existing.
+Definition all_delivered_b (existing : list tp) (h : list event) : bool :=
+  forallb (fun t => range_delivered_b h t 0 (Z.to_nat (hist_hw h t))) existing.
